@@ -621,7 +621,7 @@ theorem parseToks_two_variadics (ts₁ ts₂ ts₃ : List (List Char)) (t u : Li
 
 theorem parseToks_length (ts : List (List Char)) (idx : Nat) (iv : Option Nat) (ds : List PDim)
     (iv' : Option Nat) (h : parseToks ts idx iv = some (ds, iv')) : ds.length = ts.length := by
-  induction ts generalizing idx iv ds with
+  induction ts generalizing idx iv ds iv' with
   | nil => simp [parseToks] at h; simp [h.1.symm]
   | cons t ts ih =>
     simp only [parseToks] at h
@@ -637,7 +637,7 @@ theorem parseToks_length (ts : List (List Char)) (idx : Nat) (iv : Option Nat) (
         | some q =>
           obtain ⟨ds', iv''⟩ := q
           simp only [hr, Option.some.injEq, Prod.mk.injEq] at h
-          rw [← h.1, List.length_cons, List.length_cons, ih _ _ _ hr]
+          rw [← h.1, List.length_cons, List.length_cons, ih _ _ _ _ hr]
 
 theorem parseToks_append (a b : List (List Char)) (idx : Nat) (iv : Option Nat) :
     parseToks (a ++ b) idx iv =
@@ -678,7 +678,7 @@ theorem parseToks_append (a b : List (List Char)) (idx : Nat) (iv : Option Nat) 
 theorem parseToks_shift (ts : List (List Char)) (idx k : Nat) (iv : Option Nat) (ds : List PDim)
     (iv' : Option Nat) (h : parseToks ts idx iv = some (ds, iv')) :
     parseToks ts (idx + k) (iv.map (· + k)) = some (ds, iv'.map (· + k)) := by
-  induction ts generalizing idx iv ds with
+  induction ts generalizing idx iv ds iv' with
   | nil => simp [parseToks] at h ⊢; simp [h.1, h.2]
   | cons t ts ih =>
     simp only [parseToks] at h ⊢
@@ -695,7 +695,7 @@ theorem parseToks_shift (ts : List (List Char)) (idx k : Nat) (iv : Option Nat) 
         | some q =>
           obtain ⟨ds', iv''⟩ := q
           simp only [hr, Option.some.injEq, Prod.mk.injEq] at h
-          have hi := ih _ _ _ hr
+          have hi := ih _ _ _ _ hr
           have e1 : idx + 1 + k = idx + k + 1 := by omega
           have e2 : Option.map (· + k) (if isVar = true then some idx else iv) =
               if isVar = true then some (idx + k) else iv.map (· + k) := by
@@ -741,18 +741,22 @@ theorem parseSpec_concat (s₁ s₂ : List Char) (d₁ d₂ : List PDim) (iv₁ 
       some (d₂ ++ d₁, match iv₂ with
                       | some i => some i
                       | none => iv₁.map (· + d₂.length)) := by
-  unfold parseSpec at *
-  rw [splitWs_space, parseToks_append, h₂]
-  simp only [Nat.zero_add]
-  have hlen := parseToks_length _ _ _ _ _ h₂
+  have h₁' : parseToks (splitWs s₁) 0 none = some (d₁, iv₁) := h₁
   cases iv₂ with
   | none =>
-    have := parseToks_shift _ 0 (splitWs s₂).length none _ _ h₁
-    simp only [Nat.zero_add, Option.map_none] at this
-    rw [this, hlen]
+    have h₂' : parseToks (splitWs s₂) 0 none = some (d₂, none) := h₂
+    have hlen := parseToks_length _ _ _ _ _ h₂'
+    show parseToks (splitWs (s₂ ++ ' ' :: s₁)) 0 none = some (d₂ ++ d₁, iv₁.map (· + d₂.length))
+    rw [splitWs_space, parseToks_append, h₂']
+    have := parseToks_shift _ 0 (splitWs s₂).length none _ _ h₁'
+    simp only [Option.map_none] at this
+    simp only [this, hlen]
   | some i =>
+    have h₂' : parseToks (splitWs s₂) 0 none = some (d₂, some i) := h₂
     have hn : iv₁ = none := by rcases hv with h | h; exact h; cases h
     subst hn
-    rw [(parseToks_no_var _ _ _ _ h₁).2]
+    show parseToks (splitWs (s₂ ++ ' ' :: s₁)) 0 none = some (d₂ ++ d₁, some i)
+    rw [splitWs_space, parseToks_append, h₂']
+    simp only [(parseToks_no_var _ _ _ _ h₁').2]
 
 end JV
